@@ -1,5 +1,5 @@
 (* C01 — acyclic dataflow: every output equals the dependency-order evaluation. *)
-From HG Require Import Base Engine Exec EngineProofs C01Proofs C01Term Samples.
+From HG Require Import Base Engine Exec EngineProofs C01Proofs C01Term C01Once Samples.
 From stdpp Require Import gmap.
 
 (* The declarative spec is `Sol`: the dataflow equations of the graph
@@ -88,6 +88,22 @@ Example C01_nonvacuous_run :
   dget (res_values r) 34 = Some (VTup [VStr 14; VTup [VStr 11; VTup [VStr 10; VInt 5]];
                                                VTup [VStr 12; VTup [VStr 10; VInt 5]]]).
 Proof. vm_compute. split; reflexivity. Qed.
+
+(* EXACTLY ONCE.  When no parameter that an upstream node feeds has a fallback (signature default or binding), a node
+   scheduled in one superstep of a run is never scheduled again later in that run (a node function is invoked exactly
+   when its node is in the ready list of an executed superstep); with C01_runs_iff_satisfiable: the nodes whose inputs
+   can be satisfied run exactly once, the others never. *)
+Theorem C01_at_most_once : forall exec g pv, WF exec g pv -> List.NoDup (dkeys pv) ->
+  (forall n p, In n (g_nodes g) -> In p (n_inputs n) -> In p (all_outputs g) ->
+     pos_in p (n_hasdef n) = false /\ dmem (g_bound g) p = false) ->
+  forall r k1 k2 a b c calls n,
+  steps exec r g pv k1 (init_state pv) a ->
+  In n (ready_list g a) ->
+  superstep exec r g (ready_state g a) pv (ready_list g a) = (SOk b, calls) ->
+  steps exec r g pv k2 b c ->
+  ~ In n (ready_list g c).
+Proof. exact scheduled_once. Qed.
+Print Assumptions C01_at_most_once.
 
 (* the bound is exact on the diamond (depth 2, K = 3): it completes with max_iterations = 3 and not with 2 *)
 Example C01_nonvacuous_budget :
